@@ -5,6 +5,16 @@ ROOT = os.path.dirname(os.path.dirname(os.path.abspath(__file__)))
 TRUST = ("TLC 1.8.0 + CommunityModules; the harness's independent raw-socket codec and recording handlers; bounds as in the "
          "spec/mc/*.cfg named in the evidence; default cargo features plus vhost-kern/vdpa/net/vsock (xen, postcopy excluded)")
 CLAIMS = {
+ "C01": ("exploration", "2/C01",
+   "The byte-level oracle is WireFormat.tla (written from the protocol documents, not the Rust structs). Traces recorded by independent raw "
+   "peers on all four channels (frontend requests, backend replies/acks, backend-initiated requests and acks, GPU requests/replies) are "
+   "evaluated by TLC against it: header, payload bytes, descriptors, and decode in the opposite direction.",
+   "TLA+ transcription of the wire format evaluated by TLC on recorded byte traces (model-based differential testing)"),
+ "C18": ("model_checking", "2/C18",
+   "BackendReqChannel.tla is model-checked over all flag/request histories to the cfg depth; every history is replayed through the real "
+   "proxy and the real FrontendReqHandler (pair, proxy-vs-raw-peer, raw-peer-vs-server) and TLC validates handler invocation, arguments, "
+   "file identity, proxy result and the acknowledgement value on the wire.",
+   "TLA+ model checking (TLC) + model-based test generation + TLC trace validation"),
  "C02": ("model_checking", "2/C02",
    "TLC explores every (joint negotiation state, frontend call) transition of Session.tla (FrontendEndpoint || BackendServer); every "
    "transition is replayed on the real Frontend<->BackendReqHandler pair and the recorded trace is validated by TLC against the same "
